@@ -294,6 +294,7 @@ def monitor_trace(t, P):
     ops = {}                 # task -> start label
     close_done = None
     started_after_close = set()
+    returned_after_close = set()   # objects whose Object::drop began after close() had returned
     parked_at_close = set()
     decided = {}            # non-waiting get -> (closed, permits, step) when its semaphore operation was decided
     prev = None
@@ -305,6 +306,8 @@ def monitor_trace(t, P):
                 all_oids.add(l[3])
             if close_done is not None:
                 started_after_close.add(l[1])
+                if l[2] == 2:
+                    returned_after_close.add(l[3])
         # ---- events
         for e in d['events']:
             if e[0] == 5:
@@ -317,6 +320,11 @@ def monitor_trace(t, P):
                     excused.add(oid)
                 elif not d['closed']:
                     fail('C05', i, 'object %d was dropped while the pool is open' % oid)
+            elif e[0] in (6, 9) and e[1] in returned_after_close:
+                # "objects returned later are dropped": the only caller that can still be served is one that took
+                # its permit before the close and has not popped yet
+                fail('C12', i, 'object %d was returned after close() had returned and was handed out again (to task %d, %s)'
+                     % (e[1], e[2], fmt_label(ops[e[2]]) if e[2] in ops else '?'))
             elif e[0] == 12:
                 fail('C05', i, 'harness anomaly %s: an object came back with a different identity or twice' % (e,))
             elif e[0] == 8:
@@ -468,7 +476,8 @@ def monitor_trace(t, P):
             if op[2] == 2 and d['closed'] and close_done is not None and l[1] in started_after_close:
                 if d['queue']:
                     fail('C12', i, 'object %d returned to a closed pool stays in its queue %s' % (op[3], d['queue']))
-                if op[3] not in destroyed and op[3] not in d['held'] and op[3] not in d['loose']:
+                in_transit = any(c in (6, 20, 21) for c in tasks)     # popped by a getter that has not finished: judged at its hand-out
+                if op[3] not in destroyed and op[3] not in d['held'] and op[3] not in d['loose'] and not in_transit:
                     fail('C12', i, 'object %d returned to a closed pool is neither destroyed nor in a caller\'s hands' % op[3])
         if close_done is not None:
             if not (d['closed'] and d['sclosed']):
